@@ -1,4 +1,5 @@
 import LivesimVerif.Model.Audio
+import LivesimVerif.Lemmas.AudioFrames
 import LivesimVerif.Props.C01
 import LivesimVerif.Props.C02
 /-!
@@ -216,5 +217,156 @@ def exAudio : Rep where
 
 /-- frames 3..7 of a two-segment VoD audio of 8 frames, plus one padding frame (the last one repeated) at the loop tail -/
 example : createAudioSeg exAudio ⟨7, 3072, 9216, 3072, 9216, 0⟩ = .ok 7 3072 [3, 4, 5, 6, 7, 7] := by decide
+
+end Core
+
+/-! ## Frame identity: which source frames a re-segmented audio segment is made of (`createAudioSeg`) -/
+namespace Core
+
+theorem framesOf_some {r : Rep} {fd : Nat} {l : List Itvl} {X : List Nat} (h : framesOf r fd l = some X) :
+    ∃ fs, l.mapM (itvlFrames r fd) = some fs ∧ fs.flatten = X := by
+  unfold framesOf at h
+  cases hm : l.mapM (itvlFrames r fd) with
+  | none => simp [hm] at h
+  | some fs => exact ⟨fs, rfl, by simpa [hm] using h⟩
+
+/-- **Every frame of the output is the source frame at its position.**  For a source on a frame grid and a recipe in
+whole frames — `a … b` inside the loop (starting inside the source), `w` frames after the wrap — `createAudioSeg`
+delivers, in this order: the source frames `a … min(b, F) − 1`, the last source frame `F − 1` repeated for the positions
+`F … b − 1` beyond the source, and the source frames `0 … w − 1`.  No panic, no error, for every grid and recipe. -/
+theorem c03_frames (r : Rep) (rec : Recipe) (g : Grid r r.constSampleDur) (a b w : Nat)
+    (ha : rec.inStart = a * r.constSampleDur) (hb : rec.inEnd = b * r.constSampleDur)
+    (hw : rec.inEndAfterWrap = w * r.constSampleDur) (hab : a ≤ b)
+    (haF : a < totalFrames r r.constSampleDur) (hwF : w < totalFrames r r.constSampleDur)
+    (htot : rec.stop - rec.start = (b - a + w) * r.constSampleDur) :
+    createAudioSeg r rec = .ok rec.segNr rec.start
+      (List.range' a (min b (totalFrames r r.constSampleDur) - a) ++
+        List.replicate (b - totalFrames r r.constSampleDur) (totalFrames r r.constSampleDur - 1) ++ List.range' 0 w) := by
+  have hfd := g.pos
+  have hdur := g.dur_eq
+  have hF : 0 < totalFrames r r.constSampleDur := by omega
+  have hdurpos : 0 < r.dur := by rw [hdur]; exact Nat.mul_pos hF hfd
+  have hs0 : rec.inStart / r.dur = 0 := by
+    apply Nat.div_eq_of_lt; rw [ha, hdur]; exact Nat.mul_lt_mul_of_pos_right haF hfd
+  obtain ⟨its, col', ns', hrun, hfr, hcol⟩ :=
+    collect_init g rec a b ha hb hab haF (r.N + 1) 0 g.ne (by omega) (by simp [frameBase])
+  unfold createAudioSeg
+  have c1 : ¬ (r.constSampleDur = 0 ∨ r.dur = 0) := by omega
+  have c2 : ¬ (rec.inStart / r.dur ≥ r.N) := by rw [hs0]; have := g.ne; omega
+  have c3 : ¬ (0 ≥ r.N) := by have := g.ne; omega
+  simp only [c1, c2, c3, if_false, hs0]
+  have hback : createAudioSeg.back r rec 0 (r.N + 1) = some 0 := by
+    unfold createAudioSeg.back
+    have : ¬ ((r.seg 0).start > rec.inStart) := by rw [g.start0]; omega
+    simp [this]
+  rw [hback]
+  simp only [hrun]
+  have hleft : rec.stop - rec.start - col' = rec.inEndAfterWrap := by
+    rw [htot, hcol, hw, ← Nat.sub_mul]; congr 1; omega
+  simp only [hleft, ne_eq, not_true_eq_false, if_false]
+  by_cases hw0 : rec.inEndAfterWrap > 0
+  · have hwpos : 0 < w := by
+      rcases Nat.eq_zero_or_pos w with h | h
+      · rw [hw, h] at hw0; simp at hw0
+      · exact h
+    simp only [hw0, if_true]
+    obtain ⟨its2, hrun2, hfr2⟩ := afterWrap_from g w hwF (r.N + 1) 0 its g.ne (by omega) (by simp [frameBase])
+    rw [hw, hrun2]
+    have hall : framesOf r r.constSampleDur (its ++ its2) = some
+        (List.range' a (min b (totalFrames r r.constSampleDur) - a) ++
+          List.replicate (b - totalFrames r r.constSampleDur) (totalFrames r r.constSampleDur - 1) ++ List.range' 0 w) := by
+      rw [framesOf_append, hfr, hfr2]; simp [frameBase]
+    obtain ⟨fs, hm, hfl⟩ := framesOf_some hall
+    simp only [hm, hfl]
+  · have hw0' : w = 0 := by
+      rcases Nat.eq_zero_or_pos w with h | h
+      · exact h
+      · exfalso; apply hw0; rw [hw]; exact Nat.mul_pos h hfd
+    simp only [hw0, if_false]
+    obtain ⟨fs, hm, hfl⟩ := framesOf_some hfr
+    simp only [hm, hfl, hw0', List.range'_zero, List.append_nil]
+
+/-- the bounds of every recipe `calcAudioSegRecipe` makes are whole frames -/
+theorem recipe_whole_frames (refNr refStart refEnd refTotalDur refT : Nat) (r : Rep) (hT : 0 < refT)
+    (hf : 0 < r.constSampleDur) :
+    r.constSampleDur ∣ (audioRecipe refNr refStart refEnd refTotalDur refT r).inStart ∧
+    r.constSampleDur ∣ (audioRecipe refNr refStart refEnd refTotalDur refT r).inEnd ∧
+    r.constSampleDur ∣ (audioRecipe refNr refStart refEnd refTotalDur refT r).inEndAfterWrap := by
+  have d1 := (c03_ceil refStart refT r.constSampleDur r.T hT hf).1
+  have d2 := (c03_ceil refEnd refT r.constSampleDur r.T hT hf).1
+  have d3 := (c03_ceil (refStart / refTotalDur * refTotalDur) refT r.constSampleDur r.T hT hf).1
+  have d4 := (c03_ceil (refEnd / refTotalDur * refTotalDur) refT r.constSampleDur r.T hT hf).1
+  unfold audioRecipe
+  simp only
+  generalize audioTimeFromRef refStart refT r.constSampleDur r.T = aS at *
+  generalize audioTimeFromRef refEnd refT r.constSampleDur r.T = aE at *
+  generalize audioTimeFromRef (refStart / refTotalDur * refTotalDur) refT r.constSampleDur r.T = wS at *
+  generalize audioTimeFromRef (refEnd / refTotalDur * refTotalDur) refT r.constSampleDur r.T = wE at *
+  have z : r.constSampleDur ∣ 0 := Nat.dvd_zero _
+  split
+  · split
+    · exact ⟨Nat.dvd_sub d1 d3, Nat.dvd_sub d2 d3, z⟩
+    · exact ⟨Nat.dvd_sub d1 d3, Nat.dvd_sub d4 d3, Nat.dvd_sub d2 d4⟩
+  · exact ⟨Nat.dvd_sub d1 d3, Nat.dvd_add (Nat.dvd_sub d1 d3) (Nat.dvd_sub d2 d1), z⟩
+
+/-- **Frame identity for the recipes the server makes**: for the recipe of a reference segment `[refStart, refEnd)`,
+whenever the segment starts inside the source and the part after the wrap is shorter than the source, the output frames
+are the source frames at the positions `inStart/fd …`, padded with the last one, followed by the source frames from 0. -/
+theorem c03_frames_recipe (refNr refStart refEnd refTotalDur refT : Nat) (r : Rep) (g : Grid r r.constSampleDur)
+    (hT : 0 < refT) (hse : refStart ≤ refEnd) (hD : 0 < refTotalDur)
+    (hin : (audioRecipe refNr refStart refEnd refTotalDur refT r).inStart < r.dur)
+    (hwr : (audioRecipe refNr refStart refEnd refTotalDur refT r).inEndAfterWrap < r.dur) :
+    let rec_ := audioRecipe refNr refStart refEnd refTotalDur refT r
+    let fd := r.constSampleDur
+    let F := totalFrames r fd
+    createAudioSeg r rec_ = .ok refNr (audioTimeFromRef refStart refT fd r.T)
+      (List.range' (rec_.inStart / fd) (min (rec_.inEnd / fd) F - rec_.inStart / fd) ++
+        List.replicate (rec_.inEnd / fd - F) (F - 1) ++ List.range' 0 (rec_.inEndAfterWrap / fd)) := by
+  intro rec_ fd F
+  have hf := g.pos
+  obtain ⟨⟨a, ha⟩, ⟨b, hb⟩, ⟨w, hw⟩⟩ := recipe_whole_frames refNr refStart refEnd refTotalDur refT r hT hf
+  obtain ⟨htot, hle, hst, _⟩ := c03_recipe_total refNr refStart refEnd refTotalDur refT r hT hf hse hD
+  have ha' : rec_.inStart = a * fd := by show (audioRecipe _ _ _ _ _ _).inStart = _; rw [ha, Nat.mul_comm]
+  have hb' : rec_.inEnd = b * fd := by show (audioRecipe _ _ _ _ _ _).inEnd = _; rw [hb, Nat.mul_comm]
+  have hw' : rec_.inEndAfterWrap = w * fd := by show (audioRecipe _ _ _ _ _ _).inEndAfterWrap = _; rw [hw, Nat.mul_comm]
+  have hab : a ≤ b := by
+    have : a * fd ≤ b * fd := by rw [← ha', ← hb']; exact hle
+    exact Nat.le_of_mul_le_mul_right this hf
+  have hdur := g.dur_eq
+  have haF : a < F := by
+    have : a * fd < F * fd := by rw [← ha', ← hdur]; exact hin
+    exact Nat.lt_of_mul_lt_mul_right this
+  have hwF : w < F := by
+    have : w * fd < F * fd := by rw [← hw', ← hdur]; exact hwr
+    exact Nat.lt_of_mul_lt_mul_right this
+  have htot' : rec_.stop - rec_.start = (b - a + w) * fd := by
+    have h1 : rec_.inEnd - rec_.inStart + rec_.inEndAfterWrap = rec_.stop - rec_.start := htot
+    rw [← h1, ha', hb', hw', ← Nat.sub_mul, ← Nat.add_mul]
+  have key := c03_frames r rec_ g a b w ha' hb' hw' hab haF hwF htot'
+  have e1 : rec_.inStart / fd = a := by rw [ha', Nat.mul_div_cancel _ hf]
+  have e2 : rec_.inEnd / fd = b := by rw [hb', Nat.mul_div_cancel _ hf]
+  have e3 : rec_.inEndAfterWrap / fd = w := by rw [hw', Nat.mul_div_cancel _ hf]
+  have e4 : rec_.segNr = refNr := by
+    show (audioRecipe _ _ _ _ _ _).segNr = _
+    unfold audioRecipe; simp only; split <;> (try split) <;> rfl
+  rw [e1, e2, e3, ← hst]
+  rw [e4] at key
+  exact key
+
+/-- non-vacuity: a source of three segments of 4, 4 and 3 frames (11 frames, frame duration 1024); the recipe takes
+frames 9 … 13 of the loop — two source frames, the last one repeated for two positions beyond the source — and 2 frames
+after the wrap -/
+def exGridRep : Rep where
+  id := "A1"
+  kind := .audio
+  T := 48000
+  segs := [⟨0, 4096, 1⟩, ⟨4096, 8192, 2⟩, ⟨8192, 11264, 3⟩]
+  constSampleDur := 1024
+  sampleDur := 1024
+  preEnc := false
+  stpp := false
+
+example : createAudioSeg exGridRep ⟨7, 100 * 1024, 106 * 1024, 9 * 1024, 13 * 1024, 2 * 1024⟩ =
+    .ok 7 (100 * 1024) [9, 10, 10, 10, 0, 1] := by decide
 
 end Core
